@@ -180,7 +180,7 @@ def run(ctx):
                             val = odd[4][0][1]
                         src = lambda x, comp=comp: strip_newtype_fields(x) == ("field", ("arg", 1), ty.split("<")[0], comp) or \
                             x == ("field", ("arg", 1), ty.split("<")[0], comp) or \
-                            (len(comps) == 1 and strip_newtype_fields(x) == ("arg", 1) and mentions(x, lambda s: s[0] == "field" and s[3] == comp))
+                            (len(comps) == 1 and strip_newtype_fields(x) == ("arg", 1))
                         if how == "neg":
                             ok1 = val is not None and neg_of(src)(val)
                         elif how == "copy":
